@@ -252,8 +252,12 @@ def tour(g, make_model, on_step, max_steps=None, rnd=None):
     steps = restarts = 0
     cur, model, hist = g.init, make_model(), []
 
+    dead = set()      # states from which no state with an unvisited edge is reachable
+
     def bfs(start):
         """shortest path (list of edge indexes) to a state with unvisited edges"""
+        if start in dead:
+            return None
         prev = {start: None}
         dq = collections.deque([start])
         while dq:
@@ -266,9 +270,10 @@ def tour(g, make_model, on_step, max_steps=None, rnd=None):
                     s = ps
                 return path[::-1]
             for i, (_, _, t) in enumerate(g.out.get(s, ())):
-                if t not in prev:
+                if t not in prev and t not in dead:
                     prev[t] = (s, i)
                     dq.append(t)
+        dead.update(prev)      # nothing open is reachable from any of these any more
         return None
 
     while remaining:
